@@ -191,6 +191,22 @@ def on_exit_cb(pid, exitcode):
     log('on_process_exit', wpid=pid, exitcode=exitcode)
 
 
+def init_touch_signals(how):
+    """a pool initializer that sets up signal handling of its own for the
+    signals an application commonly claims (as Celery's process initializer
+    does): whatever it does, the pool's own handlers must be in force once the
+    worker takes jobs"""
+    log('initializer_signals', how=how)
+    if how == 'dfl':
+        for s in (signal.SIGUSR1, signal.SIGTERM):
+            signal.signal(s, signal.SIG_DFL)
+    elif how == 'ign':
+        signal.signal(signal.SIGUSR1, signal.SIG_IGN)
+    elif how == 'faulthandler':
+        import faulthandler
+        faulthandler.register(signal.SIGUSR1, file=open(os.devnull, 'w'), all_threads=False)
+
+
 def init_exit_immediately(code=3):
     log('initializer_exit')
     os._exit(code)
